@@ -575,7 +575,14 @@ int main(int argc, char ** argv) {
 			result = mmd_d_string_convert_to_data(buffer, extensions, format, language, folder);
 
 			// Where does output go?
-			if (strcmp(a_o->filename[0], "-") == 0) {
+			if ((FORMAT_TEXTBUNDLE == format) && (strcmp(a_o->filename[0], "-") != 0)) {
+				// An (uncompressed) TextBundle is a folder, as in batch mode
+				unzip_data_to_path(result->str, result->currentStringLength, a_o->filename[0]);
+				d_string_free(result, true);
+				d_string_free(buffer, true);
+				free(folder_buffer);
+				goto exit;
+			} else if (strcmp(a_o->filename[0], "-") == 0) {
 				// direct to stdout
 				output_stream = stdout;
 			} else if (!(output_stream = fopen(a_o->filename[0], "wb"))) {
